@@ -122,24 +122,39 @@ def check(prog, rep):
                 rep.ob("R07.3", f"{fi.name}:values", ok, why, loc=f"{fi.module.rel}:{sc.lineno}", detail="aligned-with-backend-columns")
 
     # ------------------------------------------------------------------ R07.2
-    groups = {}
-    for fi in prog.functions.values():
-        if fi.module.name.startswith("optyx.solvers"):
-            for nm, g, n in negations(fi):
-                groups.setdefault(fi.module.name, []).append((fi, nm, g, n))
-    for mod, lst in sorted(groups.items()):
-        guards = {g for _f, _n, g, _x in lst}
-        in_side = [x for x in lst if _flows_to_backend(x[0], x[1])]
-        out_side = [x for x in lst if _flows_to_reported(x[0], x[1])]
-        ok = len(guards) == 1 and bool(in_side) and bool(out_side)
-        rep.ob("R07.2", mod.split(".")[-1], ok,
-               f"{len(in_side)} input-side and {len(out_side)} output-side sign flips, all under `{next(iter(guards))}`" if ok else
-               (f"sign flips are guarded differently: {sorted(guards)}" if len(guards) != 1 else
-                ("the objective handed to the backend is negated but the reported value is never negated back" if not out_side else "the reported value is negated but the objective handed to the backend is not")),
-               loc=f"{lst[0][0].module.rel}:{lst[0][3].lineno}", detail="negate/un-negate pairing",
-               extra={"flips": [f"{f.name}:{nm} under {g}" for f, nm, g, _ in lst]})
-    if len(groups) < 2:
-        raise AnalysisError("sign-flip sites for maximise not found in both solver modules")
+    # what the backend is asked to minimise, per world: -objective iff the user maximises (the output side -- the
+    # reported value is un-negated under the same condition -- is R07.1's value-term)
+    n_in = 0
+    for fi, call, which in bcs:
+        backend = which.split(".")[-1]
+        if backend == "linprog":
+            target = _linprog_cost_expr(fi, call)
+            where, base, host = f"{fi.name}:linprog(c=)", "c", fi
+        else:
+            host, target = _compiled_objective_expr(prog, fi)
+            where, base = f"{host.name if host else fi.name}:compile_expression(objective)", "objective"
+        if target is None:
+            rep.undecided(f"{where}: the expression handed to the backend as objective was not found in this function (built elsewhere?)")
+            continue
+        for world in ("max", "min"):
+            try:
+                got = _world_value(prog, host, target, world, base)
+            except AnalysisError as e:
+                rep.undecided(f"{where}: {e}")
+                break
+            if got is None:
+                rep.undecided(f"{where}: objective handed to the backend not interpretable")
+                break
+            from .. import algebra as al_
+            want = (al_.C(-1) if world == "max" else al_.C(1)) * al_.A("BASE")
+            ok = got.eq(want)
+            n_in += 1
+            rep.ob("R07.2", where, ok,
+                   f"{'maximise' if world == 'max' else 'minimise'}: the backend minimises {want.key().replace('BASE', base)}" if ok else
+                   f"{'maximise' if world == 'max' else 'minimise'}: the backend is handed {got.key().replace('BASE', base)} to minimise; to {'maximise' if world == 'max' else 'minimise'} the user's objective it must be {want.key().replace('BASE', base)} (and the reported value is un-negated under the same condition)",
+                   loc=f"{host.module.rel}:{getattr(target, 'lineno', call.lineno)}", detail=f"backend-objective:{world}", robust=True)
+    if n_in == 0:
+        rep.undecided("R07.2: no backend objective could be interpreted")
     # LPData.sense mapping
     ext = prog.cls("LinearProgramExtractor").methods.get("extract_objective")
     if ext is None:
@@ -170,9 +185,13 @@ def check(prog, rep):
         if f.endswith("extract_bounds"):
             uses["extract_bounds"] = any(src(x) == var_name for x in c.args)
         if f == "LPData":
-            for k in c.keywords:
-                if k.arg == "variables":
-                    comp = k.value
+            from .common import constructor_fields
+            fv = constructor_fields(prog, "LPData", c).get("variables")
+            if isinstance(fv, ast.Name):
+                vals_ = [v for v in a.get(fv.id, []) if isinstance(v, ast.AST)]
+                fv = vals_[0] if len(vals_) == 1 else fv
+            for comp in ([fv] if fv is not None else []):
+                if True:
                     uses["LPData.variables"] = isinstance(comp, ast.ListComp) and src(comp.generators[0].iter) == var_name and src(comp.elt).endswith(".name")
     for k, v in uses.items():
         rep.pin("LinearProgramExtractor.extract", "R07.3", f"LinearProgramExtractor.extract:{k}", v, f"{k} uses the variable list returned by extract_objective ('{var_name}')" if v else f"{k} does not use the variable list that defined the cost vector's columns ('{var_name}')", loc=ex.loc, detail="one-variable-list")
@@ -283,6 +302,10 @@ def _handle_fill(rep, m_, kind):
                     bind[tg[1]] = ("enum-item", src(it.args[0]))
                 elif isinstance(it, ast.Call) and dotted(it.func) == "range" and len(it.args) == 1 and len(tg) == 1:
                     bind[tg[0]] = ("range", src(_resolve_local(it.args[0], assigns)))
+                elif isinstance(it, ast.Call) and dotted(it.func) in ("product", "itertools.product", "np.ndindex") and len(tg) == 1 and len(it.args) == 2:
+                    # one name for the whole (i, j) cell
+                    rs = [src(_resolve_local(a.args[0], assigns)) if isinstance(a, ast.Call) and dotted(a.func) == "range" and len(a.args) == 1 else (src(_resolve_local(a, assigns)) if dotted(it.func) == "np.ndindex" else "?") for a in it.args]
+                    bind[tg[0]] = ("cell", rs)
                 elif isinstance(it, ast.Call) and dotted(it.func) in ("product", "itertools.product") and all(isinstance(a, ast.Call) and dotted(a.func) == "range" and len(a.args) == 1 for a in it.args) and len(tg) == len(it.args):
                     for nm, a in zip(tg, it.args):
                         bind[nm] = ("range", src(_resolve_local(a.args[0], assigns)))
@@ -317,8 +340,16 @@ def _handle_fill(rep, m_, kind):
                     else:
                         why = f"index `{i}` ranges over `{b[1][:40]}`"
                 else:
-                    if len(idxs) != 2:
-                        why = "the matrix handle is not filled as result[i, j]"
+                    if len(idxs) == 1 and bind.get(idxs[0], ("", None))[0] == "cell":
+                        cell = idxs[0]
+                        rs = bind[cell][1]
+                        if src(who) != f"{handle}[{cell}]":
+                            why = f"{filled}[{cell}] is the value of `{src(who)}`, not of {handle}[{cell}]"
+                        elif rs != [f"{handle}.rows", f"{handle}.cols"]:
+                            why = f"the cells range over {rs}, not over the handle's rows x columns: part of the matrix stays 0"
+                    elif len(idxs) != 2:
+                        rep.undecided(f"{construct}: the write `{src(w)[:60]}` is not in a form this rule reads (result[i, j] = values[mat[i, j].name])")
+                        continue
                     else:
                         i, j = idxs
                         bi, bj = bind.get(i), bind.get(j)
@@ -329,6 +360,104 @@ def _handle_fill(rep, m_, kind):
                         elif not rng_ok:
                             why = f"{i} ranges over {bi[1] if bi else '?'} and {j} over {bj[1] if bj else '?'}, not over the handle's rows and columns: part of the matrix stays 0"
         rep.ob("R07.4", construct, why is None, ("result[i] is the value of the i-th variable of the handle" if kind == "vector" else "result[i, j] is the value of mat[i, j], i over rows, j over cols") if why is None else why, loc=f"{m_.module.rel}:{w.lineno}", detail="position")
+
+
+def _linprog_cost_expr(fi, call):
+    """Expression handed to linprog as `c`: keyword, or entry of the **kwargs dictionary (literal or item store)."""
+    for k in call.keywords:
+        if k.arg == "c":
+            return k.value
+    star = [k.value for k in call.keywords if k.arg is None]
+    if star and isinstance(star[0], ast.Name):
+        d = star[0].id
+        for n in walk_local(fi.node):
+            if isinstance(n, ast.Dict) and any(isinstance(p_, (ast.Assign, ast.AnnAssign)) and src(p_.targets[0] if isinstance(p_, ast.Assign) else p_.target) == d for p_ in [getattr(n, "_parent", None)]):
+                for kk, vv in zip(n.keys, n.values):
+                    if isinstance(kk, ast.Constant) and kk.value == "c":
+                        return vv
+            if isinstance(n, ast.Assign) and isinstance(n.targets[0], ast.Subscript) and src(n.targets[0].value) == d and isinstance(n.targets[0].slice, ast.Constant) and n.targets[0].slice.value == "c":
+                return n.value
+    return None
+
+
+def _compiled_objective_expr(prog, fi):
+    """(function, expression) whose compile_expression(...) result becomes the objective callable of the SciPy path."""
+    for f2 in prog.functions.values():
+        if f2.module is not fi.module:
+            continue
+        for n in walk_local(f2.node, include_self=False):
+            if isinstance(n, ast.Assign) and isinstance(n.targets[0], ast.Subscript) and isinstance(n.targets[0].slice, ast.Constant) and n.targets[0].slice.value == "obj_fn":
+                v = n.value
+                if isinstance(v, ast.Name):
+                    vals = [x for x in local_assignments(f2.node).get(v.id, []) if isinstance(x, ast.AST)]
+                    v = vals[0] if len(vals) == 1 else v
+                if isinstance(v, ast.Call) and dotted(v.func) == "compile_expression" and v.args:
+                    return f2, v.args[0]
+    return None, None
+
+
+def _world_value(prog, fi, target, world, base):
+    """Symbolic value (in the atom BASE) of ``target`` (an expression evaluated at the end of fi's straight-line code)
+    in the world where the user maximises / minimises."""
+    from .. import algebra as al
+    from ..terms import Tr, Untranslatable
+    from ..astutil import clone
+
+    BASE = al.A("BASE")
+    assigns = local_assignments(fi.node)
+
+    def gather(n):
+        t = src(n)
+        if base == "c" and isinstance(n, ast.Attribute) and n.attr == "c" and isinstance(n.value, ast.Name) and _is_lpdata(n.value.id, assigns, fi, prog):
+            return BASE
+        if base == "objective" and isinstance(n, ast.Attribute) and n.attr in ("objective", "_objective"):
+            return BASE
+        return None
+
+    def sense_test(t):
+        text = src(t)
+        if "sense" not in text:
+            return None
+        is_max, is_min = "'max" in text, "'min" in text
+        pos = isinstance(t, ast.Compare) and isinstance(t.ops[0], ast.Eq)
+        neg = isinstance(t, ast.Compare) and isinstance(t.ops[0], ast.NotEq)
+        if not (is_max or is_min) or not (pos or neg):
+            return None
+        holds = (world == "max") == is_max
+        return holds if pos else not holds
+
+    class _Pick(ast.NodeTransformer):
+        def visit_IfExp(self, node):
+            self.generic_visit(node)
+            r = sense_test(node.test)
+            return node if r is None else (node.body if r else node.orelse)
+
+    env = {}
+
+    def run(stmts):
+        for st in stmts:
+            if isinstance(st, ast.If):
+                r = sense_test(st.test)
+                if r is None:
+                    run(st.body)
+                    run(st.orelse)
+                else:
+                    run(st.body if r else st.orelse)
+            elif isinstance(st, (ast.Assign, ast.AnnAssign)) and getattr(st, "value", None) is not None:
+                tg = st.targets[0] if isinstance(st, ast.Assign) else st.target
+                if isinstance(tg, ast.Name):
+                    try:
+                        env[tg.id] = Tr(dict(env), gather=gather).t(_Pick().visit(clone(st.value)))
+                    except Untranslatable:
+                        env.pop(tg.id, None)
+            elif isinstance(st, (ast.Try, ast.With, ast.For, ast.While)):
+                run(st.body)
+
+    run(fi.node.body)
+    try:
+        return Tr(dict(env), gather=gather).t(_Pick().visit(clone(target)))
+    except Untranslatable:
+        return None
 
 
 def _reported_term(prog, rep, fi, sc, ov, res, backend):
@@ -367,6 +496,20 @@ def _reported_term(prog, rep, fi, sc, ov, res, backend):
             holds = (world == "max") == is_max
             return holds if pos else not holds
 
+        class _Pick(ast.NodeTransformer):
+            """Conditional expressions on the sense are resolved for this world."""
+
+            def visit_IfExp(self, node):
+                self.generic_visit(node)
+                r = sense_test(node.test)
+                if r is None:
+                    return node
+                return node.body if r else node.orelse
+
+        def pick(e):
+            from ..astutil import clone
+            return _Pick().visit(clone(e))
+
         def run(stmts):
             for st in stmts:
                 if isinstance(st, ast.If):
@@ -381,9 +524,15 @@ def _reported_term(prog, rep, fi, sc, ov, res, backend):
                     if isinstance(tg, ast.Name) and tg.id == target:
                         if isinstance(st.value, ast.Constant) and st.value.value is None:
                             continue
-                        env[target] = Tr(dict(env), gather=gather).t(st.value)
+                        env[target] = Tr(dict(env), gather=gather).t(pick(st.value))
+                    elif isinstance(tg, ast.Name):
+                        # other locals feeding the value (raw = float(res.fun)); untranslatable ones stay unbound
+                        try:
+                            env[tg.id] = Tr(dict(env), gather=gather).t(pick(st.value))
+                        except Untranslatable:
+                            env.pop(tg.id, None)
                 elif isinstance(st, ast.AugAssign) and isinstance(st.target, ast.Name) and st.target.id == target and target in env:
-                    rhs = Tr(dict(env), gather=gather).t(st.value)
+                    rhs = Tr(dict(env), gather=gather).t(pick(st.value))
                     cur = env[target]
                     env[target] = {ast.Add: cur + rhs, ast.Sub: cur - rhs, ast.Mult: cur * rhs}.get(type(st.op), cur)
                 elif isinstance(st, ast.Try):
@@ -446,38 +595,68 @@ def _fun_is_whole_objective(prog, fi, call):
 
 
 def _values_aligned(prog, fi, vexpr, assigns, res, call, backend):
-    # scipy: dict comprehension over enumerate(<variables>) with res.x[i]
-    if isinstance(vexpr, ast.DictComp):
-        g = vexpr.generators[0]
-        if not (isinstance(g.iter, ast.Call) and dotted(g.iter.func) == "enumerate" and isinstance(g.target, ast.Tuple)):
-            return False, "values are not built by enumerating a variable list"
+    """values = {<name of the i-th variable>: <res>.x[i]} over the variable list that defines the backend's columns.
+    Accepted shapes: a dict comprehension (possibly inside a conditional expression, possibly through locals), or a loop
+    filling the dict; `<res>.x` may be held in a local.  -> (True/False/None, why)"""
+    def is_point(e):
+        """e is <res>.x or a local bound only to it"""
+        if src(e) == f"{res}.x":
+            return True
+        if isinstance(e, ast.Name):
+            vals = [v for v in assigns.get(e.id, []) if isinstance(v, ast.AST)]
+            return bool(vals) and all(src(v) == f"{res}.x" for v in vals)
+        return False
+
+    def indexed_point(e, i):
+        for n in ast.walk(e):
+            if isinstance(n, ast.Subscript) and src(n.slice) == i and is_point(n.value):
+                return True
+        return False
+
+    def column_list(seq_src):
+        """the enumerated list is the one that defines the columns"""
+        if backend == "linprog":
+            return seq_src.endswith(".variables")
+        feeds_cols = any(dotted(c.func) and "cache" in dotted(c.func) and any(src(a) == seq_src for a in c.args) for c in calls(fi.node))
+        src_ok = any(src(x).endswith(".variables") for x in assigns.get(seq_src, []) if isinstance(x, ast.AST))
+        return feeds_cols and src_ok
+
+    comps, seen = [], set()
+
+    def collect(e, depth=0):
+        if depth > 4 or id(e) in seen:
+            return
+        seen.add(id(e))
+        if isinstance(e, ast.DictComp):
+            comps.append(e)
+        elif isinstance(e, ast.IfExp):
+            collect(e.body, depth + 1)
+            collect(e.orelse, depth + 1)
+        elif isinstance(e, ast.Name):
+            for v in assigns.get(e.id, []):
+                if isinstance(v, ast.AST):
+                    collect(v, depth + 1)
+
+    collect(vexpr)
+    for comp in comps:
+        g = comp.generators[0]
+        if not (len(comp.generators) == 1 and not g.ifs and isinstance(g.iter, ast.Call) and dotted(g.iter.func) == "enumerate" and isinstance(g.target, ast.Tuple) and len(g.target.elts) == 2):
+            return None, "values are built by a comprehension this rule cannot read"
         i, v = [src(e) for e in g.target.elts]
-        lst = src(g.iter.args[0])
-        key_ok = src(vexpr.key) == f"{v}.name"
-        val_ok = f"{res}.x[{i}]" in src(vexpr.value)
-        # the same local feeds the cache builder (columns)
-        feeds_cols = any(dotted(c.func) and "cache" in dotted(c.func) and any(src(a) == lst for a in c.args) for c in calls(fi.node))
-        src_ok = any(src(x).endswith(".variables") for x in assigns.get(lst, []) if isinstance(x, ast.AST))
-        ok = key_ok and val_ok and feeds_cols and src_ok
-        return ok, (f"values[{v}.name] = {res}.x[{i}] over enumerate({lst}); the same list is handed to the cache builder that compiles the backend's columns" if ok else
-                    f"values are built as {{{src(vexpr.key)}: {src(vexpr.value)}}} over {lst}: key/index/list do not line up with the backend columns")
+        seq = src(g.iter.args[0])
+        key_ok = src(comp.key) in (v, f"{v}.name")
+        ok = key_ok and indexed_point(comp.value, i) and column_list(seq)
+        return ok, (f"values[name of variable i] = {res}.x[i] over enumerate({seq}), the list that defines the backend's columns" if ok else
+                    f"values are built as {{{src(comp.key)}: {src(comp.value)[:40]}}} over {seq}: key / index / list do not line up with the backend columns")
     if isinstance(vexpr, ast.Name):
-        # lp: loop filling the dict
         for n in walk_local(fi.node, include_self=False):
-            if isinstance(n, ast.For) and isinstance(n.iter, ast.Call) and dotted(n.iter.func) == "enumerate" and isinstance(n.target, ast.Tuple):
+            if isinstance(n, ast.For) and isinstance(n.iter, ast.Call) and dotted(n.iter.func) == "enumerate" and isinstance(n.target, ast.Tuple) and len(n.target.elts) == 2:
                 i, v = [src(e) for e in n.target.elts]
                 for st in n.body:
                     if isinstance(st, ast.Assign) and isinstance(st.targets[0], ast.Subscript) and src(st.targets[0].value) == vexpr.id:
-                        ok = src(st.targets[0].slice) == v and f"{res}.x[{i}]" in src(st.value) and src(n.iter.args[0]).endswith(".variables")
-                        return ok, (f"values[name] = {res}.x[i] over enumerate({src(n.iter.args[0])})" if ok else f"values[{src(st.targets[0].slice)}] = {src(st.value)} over {src(n.iter.args[0])} does not line up")
-        # or: values = {name: res.x[i] for i, name in enumerate(<lp data>.variables)}
-        comps = [v for v in assigns.get(vexpr.id, []) if isinstance(v, ast.DictComp)]
-        for comp in comps:
-            g = comp.generators[0]
-            if isinstance(g.iter, ast.Call) and dotted(g.iter.func) == "enumerate" and isinstance(g.target, ast.Tuple) and len(comp.generators) == 1 and not g.ifs:
-                i, v = [src(e) for e in g.target.elts]
-                ok = src(comp.key) == v and f"{res}.x[{i}]" in src(comp.value) and src(g.iter.args[0]).endswith(".variables")
-                return ok, (f"values[name] = {res}.x[i] over enumerate({src(g.iter.args[0])})" if ok else f"values are built as {{{src(comp.key)}: {src(comp.value)}}} over {src(g.iter.args[0])}: key / index / list do not line up")
+                        seq = src(n.iter.args[0])
+                        ok = src(st.targets[0].slice) in (v, f"{v}.name") and indexed_point(st.value, i) and column_list(seq)
+                        return ok, (f"values[name] = {res}.x[i] over enumerate({seq})" if ok else f"values[{src(st.targets[0].slice)}] = {src(st.value)[:40]} over {seq} does not line up with the backend columns")
     return None, "construction of the values dictionary not recognised"
 
 
